@@ -6,6 +6,7 @@ import json
 import random
 
 from .. import core
+from . import handle_common as H
 
 MAXC = 2 ** 29
 MC_CFG = "INIT Init\nNEXT Next\nCHECK_DEADLOCK FALSE\nINVARIANT InvSound\nINVARIANT InvComplete\n"
@@ -323,6 +324,8 @@ def run(ctx):
     for e in events:
         c = e["q"]["caller"] + "/" + e["q"]["form"]
         ctx.extra["events_by_caller"][c] = ctx.extra["events_by_caller"].get(c, 0) + 1
+    # the handle as a state machine: every history of MC_Handle on one live handle, this property's battery after every step
+    H.check(ctx, "region", 4 if thorough else 3, 20000 if thorough else 1200)
     ctx.assumptions += ["features without coordinates ('.') are not part of the C06 domain",
                         "TLC integers are 32-bit: coordinates are < 2**31",
                         "Feature-form queries pass the Feature's strand also as strand=, so the verdict does not depend on whether region() honours or ignores the Feature's strand"]
@@ -330,6 +333,8 @@ def run(ctx):
 
 def replay(ctx, rec):
     c = rec["case"]
+    if "raw_handle" in c:
+        return H.replay(ctx, rec, "region")
     if "q" not in c:
         return True
     if "hseed" in c["q"]:       # an event of a handle history: the whole history is run again from its seed
